@@ -52,6 +52,7 @@ def confirm(src, sid, prop, dest=None):
         meta["confirmed"]["baseline_201_pass"] = rc == 0
         meta["confirmed"]["baseline_output"] = out.strip().splitlines()[0] if out.strip() else ""
         assert rc == 0, "baseline: " + out[-2000:]
+        os.makedirs(os.path.dirname(os.path.join(wt, dest)), exist_ok=True)
         shutil.copy(demo, os.path.join(wt, dest))
         pkg = "./" + os.path.dirname(dest)
         race = " -race" if "-race" in dtext[:600] or prop == "C11" else ""
